@@ -340,6 +340,7 @@ func TestC12(t *testing.T) {
 	full1 := c12Alphabet{Name: "full", Pre: []int8{0, 1, 2}, Fwd: []bool{true, false}}
 	full2 := c12Alphabet{Name: "full-2pre", Pre: []int8{0, 1}, Fwd: []bool{true, false}}
 	uni := c12Alphabet{Name: "uniform-dust", UniformDust: true, Pre: []int8{0, 1}, Fwd: []bool{true, false}}
+	uniOut := c12Alphabet{Name: "outputs only (no dust)", UniformDust: true, OnlyOutput: true, Pre: []int8{0, 1}, Fwd: []bool{true, false}}
 	uni3 := c12Alphabet{Name: "uniform-dust-3pre", UniformDust: true, Pre: []int8{0, 1, 2}, Fwd: []bool{true, false}}
 	red := c12Alphabet{Name: "reduced(fwd only)", Pre: []int8{0, 1}, Fwd: []bool{true}}
 	red4 := c12Alphabet{Name: "reduced(fwd only, no preimage)", Pre: []int8{0}, Fwd: []bool{true}}
@@ -365,9 +366,10 @@ func TestC12(t *testing.T) {
 			{"time/1-htlc", "time", 1, with(uni3, 3), cfgAll, []bool{false, true}, false},
 			{"disp/1-htlc", "disp", 1, with(full1, 3), cfgAll, []bool{false, true}, false},
 			{"time/2-htlc", "time", 2, with(uni3, 3), cfgAll, []bool{false, true}, false},
-			{"disp/2-htlc", "disp", 2, with(full1, 2), cfgT, []bool{false, true}, false},
+			{"disp/2-htlc", "disp", 2, with(full1, 2), cfgT, []bool{false}, false},
+			{"disp/2-htlc/startup-feed", "disp", 2, with(full1, 2), cfg1, []bool{true}, false},
 			{"disp/3-htlc", "disp", 3, with(red, 1), cfgQ, []bool{false}, true},
-			{"time/3-htlc", "time", 3, with(uni, 3), cfgAll, []bool{false}, false},
+			{"time/3-htlc", "time", 3, with(uniOut, 3), cfgAll, []bool{false}, false},
 			{"disp/4-htlc", "disp", 4, with(red4, 1), cfg1, []bool{false}, true},
 		}
 	}
